@@ -5,7 +5,7 @@
 EXTENDS OrbiterProps, Inputs
 CONSTANT MaxDepth
 
-Fws == { FwCCTP(0, "MINT_A", "NONE"), FwCCTP(1, "MINT_B", "CALLER_A"), FwCCTP(2, "MINT_A", "NONE"),
+Fws == { FwCCTP(0, "MINT_A", "NONE"), FwCCTP(1, "MINT_B", "CALLER_A"), FwCCTP(0, "MINT_A", "CALLER_ZERO"), FwCCTP(2, "MINT_A", "NONE"),
          FwHYP("T1", 1, "R_A"), FwHYP("T1", 3, "R_A"), FwHYP("T2", 2, "R_B"),
          FwINT("U"), FwINT("ORB"), FwINT("ORB_UPPER"), FwINT("DUST"),
          \* a paying Hyperlane hook (interchain gas paymaster: 3 ustake, max fee 5 ustake) - see KnownDeviationIGP
